@@ -32,6 +32,8 @@ V = {
     # options that have no effect on the item they are given for (nothing async here)
     "noop_opts": '#[::entrait::entrait(A12, ?Send)]\nfn a12(deps: &impl ::core::any::Any, x: i64) -> i64 { x }\n#[::entrait::entrait(pub A13, ?Send, mockall = false, unimock = false)]\npub mod m13 {\n    pub fn x(deps: &impl ::core::any::Any) {}\n}',
     "debug": '#[::entrait::entrait(A14, debug)]\nfn a14(deps: &impl ::core::any::Any, x: i64) -> i64 { x }',
+    # functions of one module repeating their (several) where-predicates on a shared type parameter
+    "where_dup": '#[::entrait::entrait(pub A15)]\npub mod m15 {\n    pub fn a<T>(deps: &impl ::core::any::Any, t: T) where T: ::core::fmt::Display, T: ::core::fmt::Debug, T: Clone, T: Send {}\n    pub fn b<T>(deps: &impl ::core::any::Any, t: T) where T: ::core::fmt::Display, T: ::core::fmt::Debug, T: Clone, T: Send {}\n}',
     "rename": '#[::entrait::entrait(A9)]\nfn a9(deps: &impl ::core::any::Any, a9: i64, a9_: i64, a9__: i64, (u, v): (u8, u8)) {}',
 }
 VN = list(V)
